@@ -100,6 +100,8 @@ type multiAnchors struct {
 	loadStore *ssa.Call
 	load      *ssa.Call
 	refuseRet *ssa.Return
+	refuseIdx int
+	family    []*ssa.Function // methods of the multi-shard batcher type
 	errs      []string
 }
 
@@ -123,26 +125,62 @@ func (a *cbpAnchors) multi(m *cbpMore) *multiAnchors {
 			x.sizeF = f
 		}
 	}
-	core.EachInstr(fn, func(i ssa.Instruction) {
-		switch y := i.(type) {
-		case *ssa.Call:
-			f := core.CalleeObj(y)
-			if core.IsMethodOf(f, "sync", "Map", "LoadOrStore") {
-				x.loadStore = y
+	// the request path of the multi-shard batcher may be one method or a method and the helpers it was split
+	// into (key construction, locked slow path): all methods of the batcher type are searched, helpers with one
+	// call site have their parameters bound to the arguments and their results followed by the backward slice
+	var family []*ssa.Function
+	for _, f := range a.p.FuncsIn(func(pp string) bool { return pp == core.CBPPath }) {
+		if f.Signature.Recv() != nil && core.NamedOf(f.Signature.Recv().Type()) == x.recvT {
+			family = append(family, f)
+		}
+	}
+	sites := map[*ssa.Function][]*ssa.Call{}
+	for _, f := range family {
+		core.EachInstr(f, func(i ssa.Instruction) {
+			if cl, ok := i.(*ssa.Call); ok {
+				if g := cl.Call.StaticCallee(); g != nil && g != f && g.Signature.Recv() != nil && core.NamedOf(g.Signature.Recv().Type()) == x.recvT {
+					sites[g] = append(sites[g], cl)
+				}
 			}
-			if core.IsMethodOf(f, "sync", "Map", "Load") {
-				x.load = y
+		})
+	}
+	for g, cs := range sites {
+		if len(cs) != 1 {
+			continue
+		}
+		for k, prm := range g.Params {
+			if k < len(cs[0].Call.Args) {
+				core.BindParam(prm, cs[0].Call.Args[k])
 			}
-		case *ssa.Return:
-			if len(y.Results) == 1 {
-				if u, ok := y.Results[0].(*ssa.UnOp); ok && u.Op == token.MUL {
-					if _, isG := u.X.(*ssa.Global); isG {
-						x.refuseRet = y
+		}
+		core.MarkTransparent(g)
+	}
+	x.family = family
+	for _, f := range family {
+		core.EachInstr(f, func(i ssa.Instruction) {
+			switch y := i.(type) {
+			case *ssa.Call:
+				fo := core.CalleeObj(y)
+				if core.IsMethodOf(fo, "sync", "Map", "LoadOrStore") {
+					x.loadStore = y
+				}
+				if core.IsMethodOf(fo, "sync", "Map", "Load") {
+					x.load = y
+				}
+			case *ssa.Return:
+				for k, res := range y.Results {
+					if u, ok := res.(*ssa.UnOp); ok && u.Op == token.MUL && isErr(u.Type()) {
+						if _, isG := u.X.(*ssa.Global); isG {
+							x.refuseRet, x.refuseIdx = y, k
+						}
 					}
 				}
 			}
-		}
-	})
+		})
+	}
+	if x.loadStore != nil {
+		fn = x.loadStore.Parent()
+	}
 	// limit field: the int field of the processor compared with size
 	if m.procType != nil {
 		core.EachInstr(fn, func(i ssa.Instruction) {
@@ -407,9 +445,10 @@ func c10_2(c *core.Ctx, p *core.Prog) {
 		c.Viol("refuse", p.Pos(fn.Pos()), core.FuncName(fn), "the multi-shard consume has no path returning the package's 'too many combinations' error: the cardinality limit is not enforced")
 		return
 	}
+	fn = x.refuseRet.Parent()
 	pos := p.Pos(x.refuseRet.Pos())
 	// the returned global is built by consumererror.NewPermanent
-	g := x.refuseRet.Results[0].(*ssa.UnOp).X.(*ssa.Global)
+	g := x.refuseRet.Results[x.refuseIdx].(*ssa.UnOp).X.(*ssa.Global)
 	perm := false
 	if initFn := g.Pkg.Func("init"); initFn != nil {
 		core.EachInstr(initFn, func(i ssa.Instruction) {
@@ -500,15 +539,20 @@ func c10_3(c *core.Ctx, p *core.Prog) {
 		return
 	}
 	fn := m.multiConsume
-	// the Get call
+	// the Get call (in the consume method or the helper that builds the key)
 	var get *ssa.Call
-	core.EachInstr(fn, func(i ssa.Instruction) {
-		if cl, ok := i.(*ssa.Call); ok {
-			if f := core.CalleeObj(cl); core.IsMethodOf(f, "go.opentelemetry.io/collector/client", "Metadata", "Get") {
-				get = cl
+	for _, f := range x.family {
+		core.EachInstr(f, func(i ssa.Instruction) {
+			if cl, ok := i.(*ssa.Call); ok {
+				if fo := core.CalleeObj(cl); core.IsMethodOf(fo, "go.opentelemetry.io/collector/client", "Metadata", "Get") {
+					get = cl
+				}
 			}
-		}
-	})
+		})
+	}
+	if get != nil {
+		fn = get.Parent()
+	}
 	if get == nil {
 		c.Undecided("get", p.Pos(fn.Pos()), core.FuncName(fn), "no client.Metadata.Get in the multi-shard consume")
 		return
@@ -610,8 +654,8 @@ func c10_3(c *core.Ctx, p *core.Prog) {
 	})
 	c.Check(len(bad) == 0 && nAttr > 0, "key|injective", pos, core.FuncName(fn), fmt.Sprintf("%d attribute constructor(s) keep the value list injectively", nAttr), strings.Join(bad, "; "))
 	// Load and LoadOrStore use the same key value
-	k1 := core.Strip(core.CallArgs(x.load)[0])
-	k2 := core.Strip(core.CallArgs(x.loadStore)[0])
+	k1 := core.Strip(core.ResolveParam(core.CallArgs(x.load)[0]))
+	k2 := core.Strip(core.ResolveParam(core.CallArgs(x.loadStore)[0]))
 	sameKey := k1 == k2
 	fromAttrs := core.DerivesFrom(k1, func(v ssa.Value) bool {
 		cl, ok := v.(*ssa.Call)
@@ -620,15 +664,17 @@ func c10_3(c *core.Ctx, p *core.Prog) {
 	c.Check(sameKey && fromAttrs, "key|same", p.Pos(x.loadStore.Pos()), core.FuncName(fn), "Load and LoadOrStore use the same attribute set", "Load and LoadOrStore do not use the same attribute-set key: a combination can be admitted twice or looked up under a different key")
 	// the md map is the one handed to the shard constructor
 	handed := false
-	core.EachInstr(fn, func(i ssa.Instruction) {
-		if cl, ok := i.(*ssa.Call); ok && cl.Call.StaticCallee() == m.newShardFn {
-			for _, arg := range core.CallArgs(cl) {
-				if mdMap != nil && arg == mdMap {
-					handed = true
+	for _, f := range x.family {
+		core.EachInstr(f, func(i ssa.Instruction) {
+			if cl, ok := i.(*ssa.Call); ok && cl.Call.StaticCallee() == m.newShardFn {
+				for _, arg := range core.CallArgs(cl) {
+					if mdMap != nil && (arg == mdMap || core.DerivesFrom(arg, func(v ssa.Value) bool { return v == mdMap })) {
+						handed = true
+					}
 				}
 			}
-		}
-	})
+		})
+	}
 	c.Check(handed, "md|handed", pos, core.FuncName(fn), "the shard is constructed with the metadata map built for this key", "the shard is not constructed with the metadata map built from this request's key values")
 	// the shard stored under the key is that very shard: every value that can reach LoadOrStore's second
 	// argument is a constructor call with this request's metadata map, not something kept from an earlier request
@@ -646,7 +692,7 @@ func c10_3(c *core.Ctx, p *core.Prog) {
 				if fresh {
 					fresh = false
 					for _, arg := range core.CallArgs(y) {
-						if mdMap != nil && arg == mdMap {
+						if mdMap != nil && (arg == mdMap || core.DerivesFrom(arg, func(v ssa.Value) bool { return v == mdMap })) {
 							fresh = true
 						}
 					}
